@@ -9,7 +9,7 @@ from mcx.ref import rebal
 from mcx.common import Report, pmap
 
 LEVEL = "model_checking"
-W_TARGETS = [(0.5, 0.5), (1.0, 0.0), (0.0, 0.0), (-0.5, 0.75), (1.5, -0.5), (0.25, 0.0), (0.0, -1.0), (2.0, 1.0)]
+W_TARGETS = [(0.5, 0.5), (1.0, 0.0), (0.0, 0.0), (-0.5, 0.75), (1.5, -0.5), (0.25, 0.0), (0.0, -1.0), (2.0, 1.0), (0.125, 0.125), (-0.125, 0.0)]
 N_TARGETS = [(2.0, -1.0), (0.0, 3.0), (0.0, 0.0), (-1.5, 0.25)]
 W_TARGETS3 = [(0.5, 0.25, 0.25), (0.5, 0.5, 0.0), (0.0, 0.0, 1.0), (-0.5, 0.75, 0.0), (0.0, -0.5, 1.5), (0.25, 0.0, 0.0), (0.0, 0.0, 0.0)]
 N_TARGETS3 = [(2.0, -1.0, 0.0), (0.0, 0.0, 3.0), (1.0, 1.0, -1.5)]
@@ -23,7 +23,8 @@ def sources(tier):
                 ("fut+fut", ledger.FEES[4], q, deposit, 2), ("etf+es", ledger.FEES[5], q, deposit, 2),
                 ("halfmult", ledger.FEES[0], q, deposit, 3), ("spot+spot", ledger.FEES[3], q, deposit, 2),
                 ("spot1+fut", ledger.FEES[0], q, deposit, 2, 0.05), ("fut+fut", ledger.FEES[1], q, deposit, 2, 0.05),
-                ("three", ledger.FEES[0], q, deposit, 2), ("three", ledger.FEES[1], q, deposit, 2)]
+                ("three", ledger.FEES[0], q, deposit, 2), ("three", ledger.FEES[1], q, deposit, 2),
+                ("spot1+fut", ledger.FEES[0], q, deposit, 2, 0.0, True), ("fut+fut", ledger.FEES[1], q, deposit, 2, 0.0, True)]
     out = []
     for u in ledger.UNIVERSES:
         for f in (ledger.FEES[0], ledger.FEES[1], ledger.FEES[4], ledger.FEES[5]):
@@ -32,13 +33,18 @@ def sources(tier):
     for u in ledger.UNIVERSES:
         out.append((u, ledger.FEES[0], q, deposit, 3, 0.05))
         out.append((u, ledger.FEES[1], q, deposit, 2, 0.05))
+        out.append((u, ledger.FEES[0], q, deposit, 2, 0.0, True))
+    out.append(("spot1+fut", ledger.FEES[1], q, deposit, 3, 0.0, True))
     return out
 
 
 def _collect(src):
     universe, fee, quotes, deposit, depth = src[:5]
     rate = src[5] if len(src) > 5 else 0.0
-    ops = ledger.alphabet(with_rebalance=False, nquotes=len(quotes), marks=False, ncontracts=len(ledger.UNIVERSES[universe]))
+    # sources flagged "reb" also reach their states through weight rebalances, so that LARGE holdings exist and a target can
+    # be a same-sign REDUCTION of a position (not only an increase, a flip or a liquidation)
+    reb = len(src) > 6 and src[6]
+    ops = ledger.alphabet(with_rebalance=reb, nquotes=len(quotes), marks=False, ncontracts=len(ledger.UNIVERSES[universe]))
     states, r = ledger.collect_states(universe, fee, depth, quotes, deposit, ops, rate=rate)
     return src, states, r["transitions"]
 
@@ -172,7 +178,8 @@ def run(tier, **kw):
     rep.set("states", nstates)
     rep.set("bfs_transitions_to_reach_states", bfs_trans)
     rep.set("targets", {"weight": W_TARGETS, "nr-contracts": N_TARGETS})
-    rep.set("sources", [{"universe": s[0], "fee": s[1], "depth": s[4], "rate": (s[5] if len(s) > 5 else 0.0)} for s in srcs])
+    rep.set("sources", [{"universe": s[0], "fee": s[1], "depth": s[4], "rate": (s[5] if len(s) > 5 else 0.0),
+                         "states_reached_through_rebalances": len(s) > 6} for s in srcs])
     rep.set("exhaustive", True)
     rep.set("samples", [{"universe": "spot1+fut", "history": [["t", 1, -2.0], ["q", 1, 1]], "measure": "weight", "alloc": [1.5, -0.5],
                          "meaning": "short 2 F, quote F 100/104, then rebalance to 150% S / -50% F"}])
